@@ -94,4 +94,16 @@ def sessionEffects (k : Kind) : List Doc → List Nat
   | [] => []
   | d :: r => (if d.valid k then d.effects else []) ++ sessionEffects k r
 
+
+/-- `setattr(message, key, str(v))` for method / scheme / path / http_version: `always_bytes(str(v), "utf-8", "surrogateescape")`
+    — `str()` of a JSON scalar other than a string is ASCII; a string must encode (no lone surrogate outside U+DC80–DCFF) -/
+def utf8Ok : Scalar → Bool
+  | .str s => (C35.encodeSE s).isSome
+  | _ => true
+
+/-- `response.reason = str(v)`: `always_bytes(str(v), "ISO-8859-1")` (strict): every code point below 256 -/
+def latin1Ok : Scalar → Bool
+  | .str s => s.all (· < 256)
+  | _ => true
+
 end MitmVerif.C47
